@@ -571,6 +571,13 @@ def check_invariants(ctx, rep, only=None):
             rep.violates(RULE + '.inv', spec, 'class ' + cls.name, 'the class has no _check_validity')
             continue
         asserts, not_understood = _canonical_asserts(cv)
+        # a validity check only checks: it does not rebind or edit a component of the object
+        for st in walk_no_nested(cv.node):
+            tgts = st.targets if isinstance(st, ast.Assign) else ([st.target] if isinstance(st, (ast.AugAssign, ast.AnnAssign)) else [])
+            for t in tgts:
+                if isinstance(t, (ast.Attribute, ast.Subscript)) and u(t).startswith('self.'):
+                    n += 1
+                    rep.violates(RULE + '.inv', cv, st, '{}._check_validity changes the object it is supposed to check ({} = ...): constructing the automaton silently edits it'.format(cls.name, u(t)))
         known_terms = ('self.', 'key', 'val')
         foreign = sorted(a for a in asserts if a not in wanted and any(isinstance(x, ast.Name) and not x.id.startswith(('key', 'val')) and x.id != 'self' for x in ast.walk(ast.parse(a, mode='eval'))))
         rep.extra.setdefault('invariant_atoms', {})[cls.name] = sorted(asserts)
